@@ -158,3 +158,31 @@ Definition appended (ss : list lmstep) : list lrec_full :=
 
 Definition payloads (es : list tev) : list N :=
   flat_map (fun e => match e with TLog b => b | _ => [] end) es.
+
+(** * The discipline, declaratively (what [wal_ok] is proved to imply) *)
+
+(** records that carry an LSN appear in strictly increasing LSN order *)
+Definition lsns_increasing (l : list lrec) : Prop :=
+  forall i j ri rj, (i < j)%nat -> nth_error l i = Some ri -> nth_error l j = Some rj ->
+    has_lsn (l_kind ri) = true -> has_lsn (l_kind rj) = true -> l_lsn ri < l_lsn rj.
+
+(** every record's prevLSN is the LSN of the previous record of the same transaction
+    ([None], i.e. a negative prevLSN in the file, for the transaction's first record) *)
+Definition chains_intact (l : list lrec) : Prop :=
+  forall a r b, l = a ++ r :: b -> has_lsn (l_kind r) = true -> l_prev r = prev_of a (l_txn r).
+
+(** the log file after the trace prefix [pre] is a sequence of complete records, in
+    increasing LSN order, with intact per-transaction chains *)
+Definition log_wellformed (pre : list tev) : Prop :=
+  durable_left pre = [] /\ lsns_increasing (durable_log pre) /\ chains_intact (durable_log pre).
+
+Definition commit_durable (pre : list tev) (t : N) : Prop :=
+  exists r, In r (durable_log pre) /\ l_txn r = t /\ l_kind r = KCommit.
+
+(** what must hold when event [e] happens after the events [pre] *)
+Definition event_ok (pre : list tev) (e : tev) : Prop :=
+  match e with
+  | TPage pid plsn => In pid (tracked (durable_log pre)) -> plsn <= max_lsn (durable_log pre)
+  | TCommitRet t => commit_durable pre t
+  | _ => True
+  end.
